@@ -301,7 +301,7 @@ def check(ctx, case):
                 # outline has an expectation
                 complete = all(how == "constructed" or pe["scale_width"] or abs(A.scale() - 1) < 1e-12 for how, pe, A in outl)
                 if complete:
-                    miss, rest2 = fm.match_multiset(want_outl, rest, lambda a, b: a["tag"] == b["tag"] and fm.outline_close(a["pts"], b["pts"], a["tol"]))
+                    miss, rest2 = fm.match_multiset(want_outl, rest, lambda a, b: a["tag"] == b["tag"] and (fm.outline_close(a["pts"], b["pts"], a["tol"]) or fm.region_close(a["pts"], b["pts"], a["tol"])))
                     if miss is not None:
                         fail("%s on cell %d: the outline of a path (tag %s, first vertices %s) expected from the path re-constructed with transformed "
                              "arguments is missing" % (op, op[1], miss["tag"], [tuple(round(v, 4) for v in p) for p in miss["pts"][:3]]), miss, rest[:3])
